@@ -28,7 +28,10 @@ def gen_config(kind, rng: random.Random, thorough=False):
                 'enc': [rng.randint(1, 6) for _ in dims], 'seed': seed}
     if kind == 'fourier_nufft':
         return {'kind': kind, 'ny': rng.choice([6, 8]), 'nx': rng.choice([6, 8]), 'k1': rng.randint(2, 3), 'k0': rng.randint(4, 6),
-                'coils': rng.choice([1, 1, 2]), 'other': rng.choice([1, 1, 2]), 'seed': seed}
+                'coils': rng.choice([1, 1, 2]), 'other': rng.choice([1, 1, 2]),
+                # the documented NUFFT parameters (default 2.0 / 6 / 2.34) are part of the operator's interface
+                'nufft': rng.choice([None, None, {'nufft_kbwidth': 1.0}, {'nufft_kbwidth': 3.5, 'nufft_numpoints': 4}, {'nufft_oversampling': 1.5},
+                                     {'nufft_numpoints': 3, 'nufft_oversampling': 2.5}]), 'seed': seed}
     if kind == 'gridsample':
         return {'kind': kind, 'dim': rng.choice([2, 3]), 'mode': rng.choice(['bilinear', 'nearest', 'bicubic']), 'padding': rng.choice(['zeros', 'border', 'reflection']),
                 'align': rng.random() < 0.5, 'batch': rng.choice([1, 1, 2]), 'channels': rng.choice([1, 1, 2]), 'seed': seed}
@@ -48,6 +51,7 @@ def force_batch(cfg, rng: random.Random):
         cfg['batch'] = 2
     elif k == 'fourier_nufft':
         cfg['coils'], cfg['other'] = 2, rng.choice([1, 2])
+        cfg['nufft'] = cfg.get('nufft') or rng.choice([{'nufft_kbwidth': 1.0}, {'nufft_kbwidth': 3.5, 'nufft_numpoints': 4}, {'nufft_oversampling': 1.5}])
     elif k == 'gridsample':
         cfg['batch'], cfg['channels'] = 2, rng.choice([1, 2])
     elif k == 'sliceproj':
@@ -95,7 +99,7 @@ def build(cfg):
         kx = torch.tensor([rng.uniform(-nx / 2, nx / 2 - 0.01) for _ in range(k1 * k0)], dtype=torch.float64).reshape(1, 1, k1, k0)
         ky = torch.tensor([rng.uniform(-ny / 2, ny / 2 - 0.01) for _ in range(k1 * k0)], dtype=torch.float64).reshape(1, 1, k1, k0)
         traj = KTrajectory(torch.zeros(1, 1, 1, 1, dtype=torch.float64), ky, kx, repeat_detection_tolerance=None)
-        op = mrpro.operators.FourierOp(SpatialDimension(1, ny, nx), SpatialDimension(1, ny, nx), traj)
+        op = mrpro.operators.FourierOp(SpatialDimension(1, ny, nx), SpatialDimension(1, ny, nx), traj, **(cfg.get('nufft') or {}))
         o, c = cfg.get('other', 1), cfg.get('coils', 1)
         return op, [o, c, 1, ny, nx], [o, c, 1, k1, k0], 1e-6
     if kind == 'gridsample':
